@@ -1285,7 +1285,68 @@ func (e *Exec) bootstrap(st *Step) {
 		}
 	}
 	e.Stats.Inc("probe.export_import_roundtrip")
+	if Keyed(e.S.Seed, "zero-height", uint64(h)).Chance(0.35) {
+		e.zeroHeightExport(r0, secs, vals, h)
+	}
 	follow()
+}
+
+// zeroHeightExport: the other way an operator exports a chain ("export --for-zero-height": staking/distribution state is
+// reset for a restart at height 0/1). It rewrites state of SDK modules in the exporting process, so it runs on a scratch
+// process over a copy of the reference replica's disk. The custom sections must equal those of the plain export, and a
+// fresh chain must start from the result with exactly the custom-module state of the exported one.
+func (e *Exec) zeroHeightExport(r0 *Replica, secs map[string]string, vals []abci.ValidatorUpdate, h int64) {
+	scratchCtr++
+	sn := &Node{ID: 3000 + scratchCtr, Env: e.Env, DB: r0.DB.Clone()}
+	sn.Home = filepath.Join(e.Scratch, fmt.Sprintf("zeroexp%d", scratchCtr))
+	_ = os.MkdirAll(filepath.Join(sn.Home, "data"), 0o755)
+	if err := sn.Start(); err != nil {
+		return // restarts on the reference replica's disk are C10's business
+	}
+	defer func() { sn.App = nil }()
+	var appState []byte
+	var err error
+	_, halt := sn.guard("ExportZeroHeight", func() {
+		exp, er := sn.App.ExportAppStateAndValidators(true, nil, nil)
+		appState, err = exp.AppState, er
+	})
+	if halt != nil {
+		e.viol("C08", "export.zero_height_panic", "", "exporting genesis for zero height at height %d panicked: %s [%s]", h, halt.Panic, halt.Stack)
+		return
+	}
+	if err != nil {
+		e.viol("C08", "export.zero_height_error", "", "exporting genesis for zero height at height %d failed: %v", h, err)
+		return
+	}
+	e.Stats.Inc("probe.export_zero_height")
+	s0, _ := customSections(appState)
+	for _, mod := range customGenesisModules {
+		if s0[mod] != secs[mod] {
+			e.viol("C08", "export.zero_height_differs."+mod, "", "the %s section of the zero-height export differs from the plain export of the same state (height %d): %s  VS  %s", mod, h, trunc(s0[mod], 300), trunc(secs[mod], 300))
+			return
+		}
+	}
+	tmp := NewNode(4000+scratchCtr, e.Env, NodeCfg{}, e.Scratch)
+	if err := tmp.Start(); err != nil {
+		return
+	}
+	defer func() { tmp.App = nil }()
+	tmp.curHdr = &Block{Height: 1, Time: e.Now}
+	_, halt = tmp.guard("InitChain", func() {
+		cp := consensusParams()
+		if e.exportedCP != nil {
+			cp = e.exportedCP
+		}
+		tmp.App.InitChain(abci.RequestInitChain{ChainId: ChainID, ConsensusParams: cp, AppStateBytes: appState, Time: e.Now, InitialHeight: 1, Validators: vals})
+	})
+	if halt != nil {
+		e.viol("C08", "import.zero_height_init_panic", "", "initialising a fresh chain from the zero-height export of height %d panicked: %s [%s]", h, halt.Panic, halt.Stack)
+		return
+	}
+	ex := ExtractState(tmp.DeliverStores())
+	if d := DiffFlat(e.Model.Flatten(), ex.Flat, "", 4); len(d) > 0 {
+		e.viol(e.importProp(d[0]), "import.state_differs", "", "state after importing the zero-height export of height %d differs from the exported chain: %s", h, strings.Join(d, " ; "))
+	}
 }
 
 // importProp attributes an export/import difference: to C08 in general, and to the property that names
